@@ -261,10 +261,24 @@ class Gen(object):
                              "exsl:object-type(%s)" % self.expr('any', depth + 1)])
         return r.choice(STR_LITS)
 
+    def reuse(self, depth):
+        """the same variable / path consumed through two different conversions in one expression"""
+        r = self.r
+        v = self.var(r.choice(['ns', 'ns', 'str', 'num'])) or self.relpath(depth, short=True)
+        self.f('reuse')
+        as_str = r.choice(["contains(%s, 'a')", "starts-with(%s, '1')", "string-length(%s) > 1", "translate(%s, 'a', 'b') = 'b'", "substring-before(%s, '.') = '1'", "concat(%s, 'x') != 'x'"]) % v
+        as_num = r.choice(["%s * 2 > 3", "number(%s) = 1", "%s + 1 < 5", "floor(%s) = 2", "%s mod 2 = 1", "sum(%s) > 1" if v.startswith('$ns') or not v.startswith('$') else "%s - 1 = 0"]) % v
+        as_bool = r.choice(["boolean(%s)", "not(%s)", "%s = true()"]) % v
+        parts = [as_str, as_num, as_bool]
+        r.shuffle(parts)
+        return (' %s ' % r.choice(['and', 'or'])).join(parts[:r.choice([2, 3])])
+
     def e_bool(self, depth):
         r = self.r
         k = r.random()
         deep = depth >= self.max_depth
+        if k > 0.96 and not deep:
+            return self.reuse(depth)
         if k < 0.08 or deep:
             return r.choice(['true()', 'false()'])
         if k < 0.55:
